@@ -155,9 +155,11 @@ def r2_promotion(R) -> None:
     allowed: Dict[str, set] = {}
     differ = False
     for (a_, tr, *_r) in facts:
-        if isinstance(a_, ast.Compare) and len(a_.ops) == 1 and isinstance(a_.ops[0], ast.In) and tr and isinstance(a_.comparators[0], (ast.Tuple, ast.List, ast.Set)) \
-                and text(a_.left) in ('self.type', 'other.type'):
-            allowed[text(a_.left)] = {text(e).split('.')[-1] for e in a_.comparators[0].elts}
+        if isinstance(a_, ast.Compare) and len(a_.ops) == 1 and isinstance(a_.ops[0], ast.In) and tr and text(a_.left) in ('self.type', 'other.type'):
+            # the collection tested against: a display, or a module-level name bound to one
+            coll = a_.comparators[0].elts if isinstance(a_.comparators[0], (ast.Tuple, ast.List, ast.Set)) else _const_sequence(R, f, a_.comparators[0])
+            if coll is not None:
+                allowed[text(a_.left)] = {text(e).split('.')[-1] for e in coll}
         if isinstance(a_, ast.Compare) and len(a_.ops) == 1 and isinstance(a_.ops[0], ast.Eq) and not tr and {text(a_.left), text(a_.comparators[0])} == {'self.type', 'other.type'}:
             differ = True
     for side in ('self.type', 'other.type'):
@@ -254,6 +256,122 @@ def _fold_types(e: ast.AST, env: Dict[str, object]):
     raise _NoFold(type(e).__name__)
 
 
+class _S:
+    """A symbolic operand of known type (its sample value carries the type)."""
+    def __init__(self, name, sample):
+        self.name, self.sample = name, sample
+
+
+def _show(v) -> str:
+    if isinstance(v, _S):
+        return v.name
+    if isinstance(v, tuple) and v and v[0] == '<call>':
+        return f'{v[1]}({", ".join(_show(a) for a in v[2])})'
+    return repr(v)
+
+
+def _peval(e: ast.AST, env: Dict[str, object]):
+    """Partial evaluation over operands of known type: like _fold_types, but the operands stay symbolic (`_S`), so that
+    selections (`[x for x in (this, that) if type(x) is int]`, `offsets[0]`, `len(offsets)`) and the final value can be
+    followed.  Calls of unknown functions on symbolic arguments stay calls.  Anything else: _NoFold."""
+    def conc(v):
+        return v.sample if isinstance(v, _S) else v
+    if isinstance(e, ast.Constant):
+        return e.value
+    if isinstance(e, ast.Name):
+        if e.id in env:
+            return env[e.id]
+        if e.id in _TYPES:
+            return _TYPES[e.id]
+        return ('<fn>', e.id)
+    if isinstance(e, (ast.Tuple, ast.List)):
+        out = []
+        for x in e.elts:
+            if isinstance(x, ast.Starred):
+                out += list(_peval(x.value, env))
+            else:
+                out.append(_peval(x, env))
+        return tuple(out)
+    if isinstance(e, (ast.ListComp, ast.GeneratorExp)) and len(e.generators) == 1 and isinstance(e.generators[0].target, ast.Name):
+        g = e.generators[0]
+        seq = _peval(g.iter, env)
+        if not isinstance(seq, tuple):
+            raise _NoFold('iterable')
+        out = []
+        for item in seq:
+            env2 = dict(env)
+            env2[g.target.id] = item
+            if all(_peval(c, env2) for c in g.ifs):
+                out.append(_peval(e.elt, env2))
+        return tuple(out)
+    if isinstance(e, ast.IfExp):
+        return _peval(e.body, env) if _peval(e.test, env) else _peval(e.orelse, env)
+    if isinstance(e, ast.Call) and isinstance(e.func, ast.Name) and not e.keywords:
+        args = []
+        for x in e.args:
+            if isinstance(x, ast.Starred):
+                args += list(_peval(x.value, env))
+            else:
+                args.append(_peval(x, env))
+        fn = e.func.id
+        if fn == 'type' and len(args) == 1:
+            return type(conc(args[0]))
+        if fn == 'isinstance' and len(args) == 2:
+            return isinstance(conc(args[0]), args[1])
+        if fn == 'len' and len(args) == 1 and isinstance(args[0], tuple):
+            return len(args[0])
+        if fn in ('set', 'frozenset') and len(args) == 1:
+            return frozenset(args[0])
+        if fn in ('tuple', 'list') and len(args) == 1:
+            return tuple(args[0])
+        if fn == 'all' and len(args) == 1:
+            return all(args[0])
+        if fn == 'any' and len(args) == 1:
+            return any(args[0])
+        target = env.get(fn)
+        shown = target.name if isinstance(target, _S) else fn
+        return ('<call>', shown, tuple(args))
+    if isinstance(e, ast.Subscript) and isinstance(e.slice, ast.Constant) and isinstance(e.slice.value, int):
+        return _peval(e.value, env)[e.slice.value]
+    if isinstance(e, ast.UnaryOp) and isinstance(e.op, ast.Not):
+        return not _peval(e.operand, env)
+    if isinstance(e, ast.BoolOp):
+        vals = [_peval(v, env) for v in e.values]
+        return all(vals) if isinstance(e.op, ast.And) else any(vals)
+    if isinstance(e, ast.Compare):
+        left = _peval(e.left, env)
+        for op, c in zip(e.ops, e.comparators):
+            right = _peval(c, env)
+            l_, r_ = conc(left), conc(right)
+            if isinstance(l_, tuple):
+                l_ = tuple(conc(x) for x in l_)
+            if isinstance(r_, tuple):
+                r_ = tuple(conc(x) for x in r_)
+            if isinstance(op, ast.Eq):
+                r = l_ == r_
+            elif isinstance(op, ast.NotEq):
+                r = l_ != r_
+            elif isinstance(op, ast.Is):
+                r = l_ is r_
+            elif isinstance(op, ast.IsNot):
+                r = l_ is not r_
+            elif isinstance(op, ast.In):
+                r = l_ in r_
+            elif isinstance(op, ast.NotIn):
+                r = l_ not in r_
+            elif isinstance(op, (ast.Lt, ast.LtE, ast.Gt, ast.GtE)) and isinstance(l_, int) and isinstance(r_, int) and not isinstance(left, _S) and not isinstance(right, _S):
+                r = {ast.Lt: l_ < r_, ast.LtE: l_ <= r_, ast.Gt: l_ > r_, ast.GtE: l_ >= r_}[type(op)]
+            else:
+                raise _NoFold(type(op).__name__)
+            if not r:
+                return False
+            left = right
+        return True
+    if isinstance(e, ast.Attribute) and isinstance(e.value, ast.Name) and e.value.id == 'types' and e.attr == 'NoneType':
+        return type(None)
+    raise _NoFold(type(e).__name__)
+
+
 def r3_lag_lead_table(R) -> None:
     from fsa.gated import SymExec, canon
     q = f'{P}.Symbol.combine'
@@ -273,7 +391,30 @@ def r3_lag_lead_table(R) -> None:
             if text(c) in (f'self.{attr}', f'other.{attr}'):
                 R.violation(q, f'combine:{nm}:{text(c)}', f'`{nm}` of the combined symbol is just `{text(c)}`: the other mention is ignored', where=f.where(ret[0]))
                 continue
-            raise Unsupported(f'{q}: `{nm}` of the combined symbol is `{text(c)[:70]}`')
+            # the helper was read in place: the table is evaluated on the value itself, per pair of operand types
+            samples_ = {'type(None)': None, 'int': 0, 'str': ''}
+            want_ = {('type(None)', 'type(None)'): ['None'], ('int', 'int'): [f'{fn}(this, that, 0)', f'{fn}(0, this, that)', f'{fn}(this, 0, that)', f'{fn}(that, this, 0)'],
+                     ('str', 'str'): ['0'], ('int', 'str'): ['this'], ('str', 'int'): ['that']}
+
+            class _Ops(ast.NodeTransformer):
+                def visit_Attribute(self, node):
+                    if text(node) == f'self.{attr}':
+                        return ast.Name(id='__this', ctx=ast.Load())
+                    if text(node) == f'other.{attr}':
+                        return ast.Name(id='__that', ctx=ast.Load())
+                    return self.generic_visit(node)
+            import copy as _copy
+            cv = ast.fix_missing_locations(_Ops().visit(_copy.deepcopy(canon(c))))
+            for (ka, kb), vs in want_.items():
+                try:
+                    got = _show(_peval(cv, {'__this': _S('this', samples_[ka]), '__that': _S('that', samples_[kb])}))
+                except (_NoFold, TypeError, IndexError, KeyError, ValueError) as e_:
+                    raise Unsupported(f'{q}: `{nm}` of the combined symbol (`{text(c)[:60]}`) cannot be evaluated over the operand types ({type(e_).__name__}: {e_})')
+                shown = f'({ka}, {kb})'
+                R.check(got in vs, q, f'row:{nm}:{shown}:{got}', f'{nm}: {shown} -> {vs[0]}',
+                        f'{nm}: a pair of offsets of types {shown} combines to `{got}`, expected `{vs[0]}`' + (
+                            ' (an integer lag/lead met by a named-period index must be kept)' if 'str' in (ka, kb) and 'int' in (ka, kb) else ''), where=f.where(ret[0]))
+            continue
         helper = helper or c.func.id
         ok = c.func.id == helper and text(c.args[0]) == f'self.{attr}' and text(c.args[1]) == f'other.{attr}' and text(c.args[2]) == fn and not c.keywords
         R.check(ok, q, f'combine:{nm}:{text(c)}', f'{nm} combined with {fn}() over self.{attr}, other.{attr}',
